@@ -23,6 +23,7 @@ RULE = ('(i) idempotence: expr_simp of a memo-free copy of expr_simp(e) must be 
 RULE += ' Round 6: 19 operands carrying one, two or three symbols (sums and differences) lifted, simplified, rendered and emulated under every hash seed.'
 RULE += ' Round 7: operand twins whose names differ by zero padding, digit runs or punctuation (var_8 / var_08, r2 / r10, a_b / ab).'
 RULE += " Round 8: stores written with the operands of their address in both orders must simplify, as whole assignments, to one form, and that form is a fixed point."
+RULE += ' Round 10: AC variants must also be equal for the library itself (==), not only in text; operands over identifiers created as registers (is_reg), a merged composition of register slices next to the plain slice; the laws again after 60 simplifier calls that raise.'
 ASSUMPTIONS = ['the corpus generator is hash-seed independent (blake2b-derived RNG, sorted iteration in the harness)']
 
 HASH_SEEDS_QUICK = [0, 1, 2, 3, 7, 42, 12345]
@@ -143,9 +144,15 @@ def check_tree(sh, e, rng):
             sh.violation('ac-order/%s/raises:%s' % (kind.split('-')[0], type(ex).__name__), 'variant %s raised %r' % (v, ex), {'tree': c, 'variant': cv, 'law': 'ac'})
             continue
         sh.case(('ac', c, cv), nontrivial=True, cls='ac:%s:%s' % (kind, root_skeleton(e)))
-        if exprgen.canon(sv) != cs or str(sv) != str(s):
+        try:
+            lib_equal = bool(sv == s) and not (sv != s)
+        except Exception:
+            lib_equal = False
+        if exprgen.canon(sv) != cs or str(sv) != str(s) or not lib_equal:
             # shrink: smallest sub-tree pair exhibiting the difference
             key = ac_key(e, v)
+            if exprgen.canon(sv) == cs and str(sv) == str(s):
+                key = 'same-text-but-unequal-for-the-library/' + root_skeleton(e)
             sh.violation('ac-order/%s/%s' % (kind.split('-')[0], key), 'expr_simp(%s) = %s but the AC variant %s simplifies to %s' % (e, s, v, sv),
                          {'tree': c, 'variant': cv, 'law': 'ac'})
     # (ii') the same comparison WITHOUT copying: the variants share their operand objects with e (as expressions built by
@@ -227,7 +234,7 @@ def twins(w):
 
 def shards(tier, seed):
     n = 64 if tier == 'quick' else 1200
-    return [('tmpl', w) for w in (8, 32)] + [('slicecomp', 0)] + [('twins', w) for w in (8, 16, 32)] + [('aff', 0)] + [('rand', i) for i in range(n)]
+    return [('tmpl', w) for w in (8, 32)] + [('slicecomp', 0)] + [('twins', w) for w in (8, 16, 32)] + [('aff', 0)] + [('regs', 0), ('afterraises', 0)] + [('rand', i) for i in range(n)]
 
 
 STATE_BLOCKS = [['movl $0x11223344, (%esi)', 'movw %cx, (%esi)'], ['movw $0x1234, (%esi)', 'movb %cl, (%esi)'], ['movl $0x11223344, (%esi)', 'movw %cx, 2(%esi)'],
@@ -343,8 +350,59 @@ def check_state(sh, blk, tag, route='emul_lines'):
                          {'tree': c, 'law': 'idem', 'block': blk})
 
 
+def register_templates():
+    """Operands over identifiers created as registers (is_reg=True, as the lifter's are): a merged composition of a register's
+    slices next to the plain slice of the same register."""
+    ex, mi = exprgen.M()
+    S, Cm, Op = ex.ExprSlice, ex.ExprCompose, ex.ExprOp
+    out = []
+    for nm, w in (('eax', 32), ('rbx64', 64), ('cx', 16)):
+        r = ex.ExprId(nm, w, is_reg=True)
+        o = ex.ExprId('o_' + nm, w, is_reg=True)
+        q = w // 4
+        C = Cm([(S(r, 0, q), 0, q), (S(r, q, 2 * q), q, 2 * q)])
+        R = S(r, 0, 2 * q)
+        C4 = Cm([(S(r, 0, q), 0, q), (S(r, q, 2 * q), q, 2 * q), (S(r, 2 * q, 3 * q), 2 * q, 3 * q), (S(r, 3 * q, w), 3 * q, w)])
+        Ohalf = S(o, 0, 2 * q)
+        for op in exprgen.AC:
+            out += [Op(op, C, R), Op(op, Op(op, C, Ohalf), R), Op(op, R, Op(op, Ohalf, C)), Op(op, C4, r), Op(op, Op(op, C4, o), r), Op(op, C, C), Op(op, r, o, C4)]
+        out.append(Op('+', Op('^', C, R), Ohalf))
+    return out
+
+
 def run_shard(shard, tier, seed):
     sh = common.Shard()
+    if shard[0] == 'afterraises':
+        # the canonical form does not depend on how many earlier simplifier calls failed: 60 calls that raise (operands of
+        # different widths, slices of widths the library has no constants for, wrong arities), then the laws again
+        import miasmx.expression.expression_helper as eh
+        ex, mi = exprgen.M()
+        I = exprgen.Int
+        x = ex.ExprId('x32', 32)
+        bad = [lambda: ex.ExprOp('+', I(1, 8), I(1, 16)), lambda: ex.ExprOp('^', ex.ExprSlice(x, 8, 32), ex.ExprSlice(x, 8, 32)), lambda: ex.ExprOp('&', I(3, 32), I(1, 64)),
+               lambda: ex.ExprOp('*', I(2, 16), I(2, 8), I(2, 8)), lambda: ex.ExprOp('|', ex.ExprSlice(I(5, 32), 3, 32), ex.ExprSlice(I(5, 32), 3, 32))]
+        raised = 0
+        for i in range(60):
+            try:
+                eh.expr_simp(bad[i % len(bad)]())
+            except Exception:
+                raised += 1
+        sh.counters['afterraises_calls_that_raised'] += raised
+        rng = common.rng_for(0, 'C13ar')
+        from vf.checks.c05 import templates
+        probes = register_templates()[:12] + [t for k, (fam, t) in enumerate(templates(8)) if k % 9 == 0][:60]
+        a, b, c = ex.ExprId('a32', 32), ex.ExprId('b32', 32), ex.ExprId('c32', 32)
+        probes += [ex.ExprOp('+', b, a), ex.ExprOp('^', ex.ExprOp('^', c, b), a), ex.ExprOp('^', a, a), ex.ExprOp('+', ex.ExprOp('+', c, I(1, 32)), ex.ExprOp('+', a, I(2, 32)))]
+        for t in probes:
+            check_tree(sh, t, rng)
+        if raised < 32:
+            sh.counters['afterraises_fewer_than_32_raised'] += 1
+        return sh
+    if shard[0] == 'regs':
+        rng = common.rng_for(0, 'C13regs')
+        for t in register_templates():
+            check_tree(sh, t, rng)
+        return sh
     if shard[0] == 'tmpl':
         from vf.checks.c05 import templates
         rng = common.rng_for(0, 'C13t', shard[1])
